@@ -8,9 +8,11 @@ import (
 
 var (
 	// a commit line as printed by --pretty=format:[%h] %aN %ad %s --date=short; the subject is
-	// free text and may itself contain bracketed hashes, the author's name or dates
+	// free text and may itself contain bracketed hashes, the author's name or dates.
+	// A numstat line has its three fields separated by exactly one tab each, so that a path may
+	// begin with a blank; runs of blanks are accepted for logs pasted from a terminal
 	header            = `^\[([\da-f]{5,40})\]\s(.*?)\s(\d{4}-\d{2}-\d{2})\s?(.*)$`
-	changes           = `^([\d-]+)[\t\s]+([\d-]+)[\t\s]+(.*)`
+	changes           = `^([\d-]+)(?:\t|\s+)([\d-]+)(?:\t|\s+)(.*)`
 	complexMoveRegStr = `(.*)\{(.*)\s=>\s(.*)\}(.*)`
 	basicMoveRegStr   = `(.*)\s=>\s(.*)`
 	changeModel       = `\s(\w{1,6})\s(mode 100(\d){3})?\s?(.*)(\s\(\d{2}%\))?`
